@@ -748,12 +748,19 @@ def case_representation(c):
     give the same model: stored as float64, same VolumeModel coefficients;
     later assignments of non-integer values are stored as given."""
     import emg3d
-    shape = (2, 3, 2)
+    shape = (2, 3, 3)
     grid = zoo.mesh({'shape': shape, 'w': 'uni'})
     mp, case_ = c['mapping'], c['case']
     n = int(np.prod(shape))
     # integer-valued mapped parameters (valid in every mapping)
     base = (1 + (np.arange(n) % 4)).reshape(shape, order='F')
+    if c['rep'].startswith('bcast'):
+        # lower-dimensional arrays that numpy broadcasting expands to the
+        # grid: a depth profile (nz,), a (ny, nz) section, an (nx, 1, 1) row
+        sl = {'bcast-z': (slice(0, 1), slice(0, 1)),
+              'bcast-yz': (slice(0, 1), ),
+              'bcast-x': (slice(None), slice(0, 1), slice(0, 1))}[c['rep']]
+        base = np.broadcast_to(base[sl], shape).copy()
     sign = -1 if (mp.startswith('L') and c['neg']) else 1
     vals = {'property_x': sign*base, 'property_y': sign*(base % 3 + 1),
             'property_z': sign*(5 - base)}
@@ -773,8 +780,14 @@ def case_representation(c):
             return np.array(a, dtype=np.int64).ravel('F')
         if k == 'list':
             return np.asarray(a).tolist()
+        if k == 'bcast-z':
+            return np.array(np.asarray(a)[0, 0, :], dtype=float)
+        if k == 'bcast-yz':
+            return np.array(np.asarray(a)[0, :, :], dtype=float)
+        if k == 'bcast-x':
+            return np.array(np.asarray(a)[:, :1, :1], dtype=float)
         if k == 'view':
-            big = np.zeros((4, 6, 4), dtype=np.int64)
+            big = np.zeros((4, 6, 6), dtype=np.int64)
             big[::2, ::2, ::2] = a
             return big[::2, ::2, ::2]
         return np.array(a, dtype=float)
@@ -824,7 +837,7 @@ def cases_representation(tier):
     for mp in MAPPINGS:
         for case_ in ('isotropic', 'VTI', 'HTI', 'triaxial'):
             for rp in ('float', 'int64', 'int32-F', 'float32', 'flat-int',
-                       'list', 'view'):
+                       'list', 'view', 'bcast-z', 'bcast-yz', 'bcast-x'):
                 for neg in (False, True):
                     if neg and not mp.startswith('L'):
                         continue
@@ -987,10 +1000,10 @@ def run(ctx):
     if ctx.wants('representation'):
         ctx.explore('representation', FN_REP, cases_representation(ctx.tier),
                     engine='E1',
-                    rule='6 mappings x 4 cases x 7 representations of the '
+                    rule='6 mappings x 4 cases x 10 representations of the '
                          'same integer-valued parameters (float64, int64, '
                          'F-ordered int32, float32, flat, list, strided '
-                         'view) x sign (log mappings): stored as float64, '
+                         'view, broadcastable depth profile / section / row) x sign (log mappings): stored as float64, '
                          'same coefficients, later non-integer assignment '
                          'kept', time_cap=cap)
     if ctx.wants('layered'):
